@@ -13,6 +13,7 @@ CLAIMED = {
     "C02": ("§4 C02", "Assume/guarantee chain over the DTLS handshake context (Connected => Finished verified => keys after verified key exchange => signature by the fingerprinted certificate => fingerprint from remote SDP), each link a cut-set/who-may rule over all CFG paths; the server-role gap is reported as a known finding."),
     "C03": ("§4 C03", "Cut-set rules: no upward effect from an unauthenticated record; only the sealed buffer is sent, only under Connected, bounded record size; every AEAD seal consumes a fresh sequence number (atomic RMW or counter advanced on every path)."),
     "C05": ("§4 C05", "Cut-set rules: replay/rollover state, Ok returns and per-SSRC table changes in the SRTP receive path are reachable only past an authentication-success edge; transport drops on unprotect error."),
+    "C09": ("§4 C09", "Table agreement: (SDP type, required state, next state) triples extracted from the CFG of the four JSEP entry points equal the JSEP table; who-may-send on the signaling state; no-effect-before-failure: no feasible CFG path (SDP type and signaling state tracked as correlated predicates, infallible callees pruned by summary) from an effect to an error return. Errors that only propagate a transport start-up failure are listed as not decided."),
     "C14": ("§4 C14", "Negative property over every path = cut-set: every RTP/RTCP egress is cut by protect(Ok)-on-the-sent-buffer or the sender's srtp_required==false; every ingress delivery by unprotect(Ok) or srtp_required==false; who-may-call IceConn egress; srtp_required wiring at construction."),
     "C18": ("§4 C18", "Who-may-write the latch state plus cut-set rules for stickiness and legitimacy (each destination write cut separately by unlatched / expected-SSRC / not-RTCP / latching-enabled) for all packet histories; rule precedence among candidates is not decided."),
     "C20": ("§4 C20", "Ownership/lock discipline of the SPSC ring: every push under one shared producer lock, every pop under one shared consumer lock (guard-liveness dataflow), atomic ordering table, Send/Sync bounds, sender accounting, drain-before-EOS."),
